@@ -360,3 +360,25 @@ Corollary sum_conserved_spec (red : list Q -> Q) labels col :
 Proof.
   intros H1 H2. rewrite <- reduce_col_spec by exact H2. apply sum_conserved; assumption.
 Qed.
+
+Lemma Forall2_map_in {X Y} (P : X -> Y -> Prop) (f : X -> Y) l :
+  (forall x, In x l -> P x (f x)) -> Forall2 P l (map f l).
+Proof.
+  induction l as [|x t IH]; intros H; cbn [map]; constructor.
+  - apply H. left. reflexivity.
+  - apply IH. intros y Hy. apply H. right. exact Hy.
+Qed.
+
+(** the whole function: with a sum reduction every returned data column adds
+    up to the total of the corresponding input column *)
+Theorem block_reduce_sum_conserved (red : list Q -> Q) wred labels coords data centres center drop oc od :
+  (forall l, red l == Qsum l) ->
+  block_reduce red wred labels coords data None centres center drop = Some (oc, od) ->
+  Forall2 (fun col out => Qsum out == Qsum col) data od.
+Proof.
+  intros Hred. unfold block_reduce. destruct (br_valid labels coords data None) eqn:Hv; [|discriminate].
+  intros E. injection E as _ <-. unfold block_data.
+  unfold br_valid in Hv. repeat (apply andb_true_iff in Hv as [Hv ?]).
+  apply Forall2_map_in. intros col Hin. apply sum_conserved; [exact Hred|].
+  eapply all_len_In; eassumption.
+Qed.
